@@ -253,7 +253,22 @@ pub fn l08(a: u64, b: u64) -> u64 { let q = names(a, b); let total: usize = q.it
 pub fn l09(a: u64, b: u64) -> u64 { let mut m: HashMap<u64, VecDeque<u64>> = HashMap::new(); for x in seq(a, b) { m.entry(x % 3).or_insert_with(VecDeque::new).push_back(x); } let mut ks: Vec<&u64> = m.keys().collect(); ks.sort_unstable(); let first = m.get(ks[0]).and_then(VecDeque::front).copied().unwrap_or(0); let tot: usize = m.values().map(VecDeque::len).sum(); first + tot as u64 * 10 + ks.len() as u64 * 1000 }
 pub fn l10(a: u64, b: u64) -> u64 { let v = seq(a, b); let r = v.iter().try_fold(0u64, |acc, x| if *x == 9 { None } else { Some(acc + x) }); let s: Result<u64, u64> = v.iter().try_fold(0u64, |acc, x| if acc > 12 { Err(acc) } else { Ok(acc + x) }); r.unwrap_or(555) + match s { Ok(t) => t, Err(e) => 100 + e } * 1000 }
 
+// ======================================================================== fifth batch
+use std::borrow::Cow;
+pub fn n01(a: u64, b: u64) -> u64 { seq(a, b).iter().scan(0u64, |acc, x| { *acc += x; if *acc > 25 { None } else { Some(*acc) } }).last().unwrap_or(0) + seq(a, b).iter().rposition(|x| *x > 3).map_or(90, |p| p as u64) * 100 }
+pub fn n02(a: u64, b: u64) -> u64 { let v = seq(a, b); match v.as_slice() { [first, rest @ ..] => first * 100 + rest.len() as u64 + rest.iter().rev().skip_while(|x| **x < 5).count() as u64 * 10000, [] => 0 } }
+pub fn n03(a: u64, b: u64) -> u64 { let v = seq(a, b); let found = 'outer: loop { for (i, x) in v.iter().enumerate() { for y in v.iter().skip(i + 1) { if x + y == 13 { break 'outer Some((i as u64, *y)); } } } break None; }; found.map_or(7777, |(i, y)| i * 100 + y) }
+pub fn n04(a: u64, b: u64) -> u64 { let mut o: Option<String> = if a % 2 == 0 { Some(format!("v{}", b % 10)) } else { None }; let l = o.as_deref().map_or(0, str::len); if let Some(s) = o.as_mut() { s.push('x'); } let m: Option<&mut String> = o.as_mut(); let n = m.map(|s| { s.push('y'); s.len() }).unwrap_or(0); l as u64 + n as u64 * 10 + o.as_deref().unwrap_or("none").len() as u64 * 100 }
+pub fn n05(a: u64, b: u64) -> u64 { fn label(x: u64) -> Cow<'static, str> { if x % 2 == 0 { Cow::Borrowed("even") } else { Cow::Owned(format!("odd{}", x)) } } let c = label(a % 10); let d = label(b % 10); c.len() as u64 + d.len() as u64 * 10 + (c == d) as u64 * 100 + c.into_owned().len() as u64 * 1000 }
+pub fn n06(a: u64, b: u64) -> u64 { let mut q = dq(a, b); let mid: u64 = q.range(2..5).sum(); q.retain_mut(|x| { *x += 1; *x % 3 != 0 }); q.iter_mut().for_each(|x| *x *= 2); let head: Vec<u64> = q.drain(..q.len().min(2)).collect(); mid + q.len() as u64 * 100 + head.iter().sum::<u64>() * 1000 }
+pub fn n07(a: u64, b: u64) -> u64 { let mut v = seq(a, b); v.dedup_by_key(|x| *x % 2); let n = v.len(); v.insert(n, 99); let ce: u64 = v.chunks_exact(2).map(|c| c[0] * c[1]).sum(); let fs: f64 = v.iter().map(|x| *x as f64 * 0.5).sum(); n as u64 + (ce % 1000) * 10 + (fs * 2.0) as u64 * 100000 }
+pub fn n08(a: u64, b: u64) -> u64 { let mut m: HashMap<u64, u64> = seq(a, b).into_iter().enumerate().map(|(i, x)| (x, i as u64)).collect(); let top = m.values().copied().max().unwrap_or(0); let mut extra = HashMap::new(); extra.insert(100u64, 1u64); extra.insert(9, 50); m.extend(extra); let ks: u64 = m.clone().into_keys().sum(); let vs: u64 = m.clone().into_values().sum(); let drained: u64 = m.drain().map(|(k, v)| k + v).sum(); top + ks * 10 + vs * 10000 + (drained % 1000) * 10000000 + m.is_empty() as u64 * 10000000000 }
+pub fn n09(a: u64, b: u64) -> u64 { struct Stack { items: Vec<u64>, cap: usize } impl Stack { fn push(&mut self, x: u64) -> Option<u64> { self.items.push(x); self.overflow() } fn overflow(&mut self) -> Option<u64> { (self.items.len() > self.cap).then(|| self.items.remove(0)) } fn top(&self) -> Option<&u64> { self.items.last() } } let mut st = Stack { items: vec![], cap: (a % 3 + 1) as usize }; let ev: Vec<u64> = seq(a, b).into_iter().filter_map(|x| st.push(x)).collect(); ev.len() as u64 + ev.iter().sum::<u64>() * 10 + st.top().copied().unwrap_or(0) * 10000 + st.items.len() as u64 * 100000 }
+pub fn n10(a: u64, b: u64) -> u64 { trait Policy { fn pick(&self, q: &VecDeque<u64>) -> Option<usize>; } struct Front; struct Smallest; impl Policy for Front { fn pick(&self, q: &VecDeque<u64>) -> Option<usize> { (!q.is_empty()).then_some(0) } } impl Policy for Smallest { fn pick(&self, q: &VecDeque<u64>) -> Option<usize> { q.iter().enumerate().min_by_key(|(_, x)| **x).map(|(i, _)| i) } } fn evict(p: &dyn Policy, q: &mut VecDeque<u64>) -> Option<u64> { p.pick(q).and_then(|i| q.remove(i)) } let mut q = dq(a, b); let p: Box<dyn Policy> = if a % 2 == 0 { Box::new(Front) } else { Box::new(Smallest) }; let x = evict(p.as_ref(), &mut q); let y = evict(&Smallest, &mut q); x.unwrap_or(0) + y.unwrap_or(0) * 100 + q.len() as u64 * 10000 }
+pub fn n11(a: u64, b: u64) -> u64 { fn with_entry<R>(m: &mut HashMap<String, u64>, k: &str, f: impl FnOnce(Option<&mut u64>) -> R) -> R { f(m.get_mut(k)) } let mut m: HashMap<String, u64> = HashMap::new(); m.insert("a".into(), a % 9); let r1 = with_entry(&mut m, "a", |e| e.map(|v| { *v += 1; *v }).unwrap_or(0)); let r2 = with_entry(&mut m, "zz", |e| e.is_none()); m.entry("a".to_string()).and_modify(|v| *v *= 2).or_insert(7); m.entry("b".to_string()).and_modify(|v| *v *= 2).or_insert(b % 5); r1 + r2 as u64 * 100 + m["a"] * 1000 + m["b"] * 100000 }
+pub fn n12(a: u64, b: u64) -> u64 { let v = seq(a, b); let mut it = v.iter().peekable(); let mut groups = 0; let mut longest = 0; while let Some(x) = it.next() { let mut run = 1; while it.next_if(|y| **y >= *x).is_some() { run += 1; } groups += 1; longest = longest.max(run); } groups * 10 + longest }
+
 macro_rules! table4 { ($($n:literal => $f:ident),* $(,)?) => {
     pub fn run4(n: u32, a: u64, b: u64) -> Option<u64> { match n { $($n => Some($f(a, b)),)* _ => None } }
 } }
-table4! { 401 => l01, 402 => l02, 403 => l03, 404 => l04, 405 => l05, 406 => l06, 407 => l07, 408 => l08, 409 => l09, 410 => l10 }
+table4! { 401 => l01, 402 => l02, 403 => l03, 404 => l04, 405 => l05, 406 => l06, 407 => l07, 408 => l08, 409 => l09, 410 => l10, 501 => n01, 502 => n02, 503 => n03, 504 => n04, 505 => n05, 506 => n06, 507 => n07, 508 => n08, 509 => n09, 510 => n10, 511 => n11, 512 => n12 }
